@@ -83,6 +83,63 @@ def logger_gate(chk):
         chk.prove("C17.logger.extras", s.pc, goal, desc="emitted records carry the execution ARN always, and parent id / operation id / name / attempt when present; derived loggers keep the sink")
 
 
+def derived_loggers(chk):
+    """'and loggers derived from it': LogInfo.with_parent_id keeps the execution state (the replay gate) and every other identifier;
+    DurableContext.set_logger wraps the new sink with the context's own log info (same gate, same identifiers); Logger.get_logger returns the sink"""
+    eng = Engine(hooks=LogHooks())
+    P = eng.program
+    info_cls = P.cls("logger.LogInfo")
+    q = "logger.LogInfo.with_parent_id"
+    if info_cls.find_method("with_parent_id") is not None:
+        chk.function(q)
+        st = St()
+        state = st.alloc("opaque:ExecutionState", {"durable_execution_arn": fresh("str", "arn")})
+        info = st.alloc(info_cls, {"execution_state": state, "parent_id": eng.sym_of_type("str | None", "parent_id", st), "operation_id": eng.sym_of_type("str | None", "operation_id", st),
+                                   "name": eng.sym_of_type("str | None", "name", st), "attempt": eng.sym_of_type("int | None", "attempt", st)})
+        new_parent = fresh("str", "new_parent")
+        for k, v, s in eng.run(info_cls.find_method("with_parent_id"), [info, new_parent], st=st):
+            chk.paths += 1
+            ok = k == "val" and isinstance(v, Ref) and v.cls is info_cls
+            goal = z3.BoolVal(ok)
+            if ok:
+                a, b = s.get(info), s.get(v)
+                goal = z3.And(goal, z3.BoolVal(b["execution_state"] == state), ops.values_equal(s, b["parent_id"], new_parent),
+                              *[ops.values_equal(s, b[f_], a[f_]) for f_ in ("operation_id", "name", "attempt")])
+            chk.prove("C17.logger.derived.with_parent_id", s.pc, goal, desc="LogInfo.with_parent_id keeps the execution state (the gate that silences replayed log calls), the operation id, name and attempt, and sets the parent id")
+    ctx_cls = P.cls("context.DurableContext")
+    lg_cls = P.cls("logger.Logger")
+    if ctx_cls.find_method("set_logger") is not None:
+        chk.function("context.DurableContext.set_logger")
+        st = St()
+        state = st.alloc("opaque:ExecutionState", {"durable_execution_arn": fresh("str", "arn")})
+        info = st.alloc(info_cls, {"execution_state": state, "parent_id": eng.sym_of_type("str | None", "parent_id", st), "operation_id": eng.sym_of_type("str | None", "operation_id", st),
+                                   "name": eng.sym_of_type("str | None", "name", st), "attempt": None})
+        old_logger = st.alloc(lg_cls, {"_logger": st.alloc("opaque:stdlogger", {}), "_default_extra": st.alloc("dict", {"__kind__": "dict", "open": False, "e": {}}), "_execution_state": state})
+        ctx = st.alloc(ctx_cls, {"state": state, "_log_info": info, "logger": old_logger})
+        sink = st.alloc("opaque:stdlogger", {})
+        for k, v, s in eng.run(ctx_cls.find_method("set_logger"), [ctx, sink], st=st):
+            chk.paths += 1
+            lg = s.get(ctx).get("logger")
+            ok = k == "val" and isinstance(lg, Ref) and lg.cls is lg_cls
+            goal = z3.BoolVal(ok)
+            if ok:
+                L = s.get(lg)
+                d = s.get(L["_default_extra"])["e"] if isinstance(L.get("_default_extra"), Ref) else {}
+                i = s.get(info)
+                goal = z3.And(goal, z3.BoolVal(L["_logger"] == sink and L["_execution_state"] == state), d.get("executionArn", (F, None))[0])
+                for key, fld in (("parentId", "parent_id"), ("operationId", "operation_id"), ("operationName", "name")):
+                    has = ops.truth(s, i[fld])
+                    goal = z3.And(goal, d.get(key, (F, None))[0] == has, z3.Implies(has, ops.values_equal(s, d[key][1], strip_opt(i[fld])) if key in d else F))
+            chk.prove("C17.logger.derived.set_logger", s.pc, goal, desc="DurableContext.set_logger installs a logger on the new sink that is gated by the SAME execution state and carries the context's own identifiers")
+    if lg_cls.find_method("get_logger") is not None:
+        chk.function("logger.Logger.get_logger")
+        st = St()
+        sink = st.alloc("opaque:stdlogger", {})
+        lg = st.alloc(lg_cls, {"_logger": sink, "_default_extra": st.alloc("dict", {"__kind__": "dict", "open": False, "e": {}}), "_execution_state": st.alloc("opaque:ExecutionState", {})})
+        for k, v, s in eng.run(lg_cls.find_method("get_logger"), [lg], st=st):
+            chk.prove("C17.logger.derived.get_logger", s.pc, z3.BoolVal(k == "val" and v == sink), desc="Logger.get_logger returns the underlying sink")
+
+
 class OpsMapModel(SetModel):
     """dict[str, Operation] keyed by operation id as functions of the key: has(k), type(k), status(k)"""
 
@@ -302,6 +359,7 @@ def run(chk):
     chk.trust("python semantics of the stated subset as encoded by pyvc (DESIGN 2.3)")
     chk.trust("z3 5.1.0")
     logger_gate(chk)
+    derived_loggers(chk)
     from . import misc_contracts
     misc_contracts.logger_methods(chk, "C17")
     under_completed_contract(chk)
